@@ -258,8 +258,14 @@ pub fn arb_op(w: &W) -> BoxedStrategy<Op> {
     add(w.stream_open, (s.clone(), prop_oneof![Just(0i32), Just(1), Just(2), Just(10), Just(1000)]).prop_map(|(s, max_out)| Op::StreamOpen { s, max_out }).boxed());
     add(
         w.stream_send,
-        (0u8..4, vec(arb_ref(w.bad_refs), 0..3), vec((arb_ref(w.bad_refs), prop_oneof![Just(0i32), Just(10), Just(30), Just(600)]), 0..3))
-            .prop_map(|(k, acks, mods)| Op::StreamSend { k, acks, mods })
+        (0u8..4, vec(arb_ref(w.bad_refs), 0..3), vec((arb_ref(w.bad_refs), prop_oneof![Just(0i32), Just(10), Just(30), Just(600)]), 0..3), 0u8..6)
+            .prop_map(|(k, acks, mut mods, both)| {
+                // now and then the request also modifies (nacks) what it acknowledges
+                if both <= 1 {
+                    mods.extend(acks.iter().map(|a| (a.clone(), if both == 0 { 0 } else { 30 })));
+                }
+                Op::StreamSend { k, acks, mods }
+            })
             .boxed(),
     );
     add(w.stream_close, (0u8..4).prop_map(|k| Op::StreamCloseSend { k }).boxed());
